@@ -6,11 +6,14 @@
 
 package runtime
 
+import "reflect"
+
 // Verification hooks are disabled: every call site is guarded by this false
 // constant and is removed by the compiler. See verif_on.go.
 const verifEnabled = false
 
 func verifStep(vm *VM)                           {}
+func verifRangeRecv(vm *VM, ch reflect.Value)    {}
 func verifBegin(vm *VM)                          {}
 func verifEnd(vm *VM)                            {}
 func verifSpawn(vm, child *VM)                   {}
